@@ -1,6 +1,7 @@
 import Datacake.Model.Selector
 import Datacake.Model.Membership
 import Datacake.Model.Timestamp
+import Datacake.Model.Clock
 import Driver.Util
 /- Domain `node`: selector (C15), membership watcher (C16), node clock (C11). -/
 namespace Driver.NodeDom
@@ -78,14 +79,12 @@ def replayLog (clock wall : Nat) : List (Nat × Nat × Nat) → Nat → Except S
   | [], _ => .ok clock
   | (kind, inp, after) :: rest, i =>
     if kind == 0 then
-      match Ts.send clock wall with
-      | .ok c' => if c' == after then replayLog c' wall rest (i + 1)
+      match Clock.onGet clock wall with
+      | some c' => if c' == after then replayLog c' wall rest (i + 1)
                   else .error s!"replay mismatch at {i}: get model={c'} impl={after}"
-      | .error _ => .error s!"replay mismatch at {i}: model send fails (actor would stop), impl={after}"
+      | none => .error s!"replay mismatch at {i}: model send fails (actor would stop), impl={after}"
     else
-      let c' := match Ts.recv clock wall inp with
-        | .ok (c', _) => c'
-        | _ => clock
+      let c' := Clock.onRegister clock wall inp
       if c' == after then replayLog c' wall rest (i + 1)
       else .error s!"replay mismatch at {i}: register {inp} model={c'} impl={after}"
 
